@@ -528,6 +528,27 @@ def gen_cli_argv(rng, msg):
     ])
 
 
+REJECTED = []
+
+
+def set_rejected(rejected):
+    """pool messages the library rejects when it decodes them alone (a pristine process said so) are not
+    thrown away: a failing decode is a legitimate element of a history ("failed decodes" in C13's words), and
+    its outcome must be the same failure after any history"""
+    del REJECTED[:]
+    for r in rejected:
+        if r.get('src') in ('operator', 'synth') and len(r['hex']) // 2 <= 6000 and \
+                bytes.fromhex(r['hex']).find(b'BUFR', 1) < 0:
+            REJECTED.append({'ref': r['ref'], 'hex': r['hex'], 'cls': '?', 'json': '[]', 'qs': [], 'key': None,
+                             'marker': False, 'nsub': 0, 'twin': None, 'rej': True,
+                             'opkind': 'wide' if r['ref'].startswith('synop') and _is_wide(r['hex']) else None})
+
+
+def _is_wide(hx):
+    w = bufrgen.walk(bytes.fromhex(hx))
+    return bool(w) and any(201160 <= i <= 201255 for i in w['ids'])
+
+
 def prepare_msgs(pool):
     """histsim needs the flat JSON text of every message: take it from a pristine child."""
     res = core.pmap('hist_json', [{'hex': e['hex']} for e in pool], limit=120)
@@ -538,7 +559,8 @@ def prepare_msgs(pool):
         if r is None:
             continue
         m = {'ref': e['ref'], 'hex': e['hex'], 'cls': e['cls'], 'json': r['json'], 'nsub': r['nsub'],
-             'key': r['key'], 'twin': e.get('twin'), 'marker': r['marker']}
+             'key': r['key'], 'twin': e.get('twin'), 'marker': r['marker'],
+             'opkind': 'wide' if (e.get('opkind') or '').startswith('wide') else None}
         m['qs'] = gen_queries(random.Random(int(_h(e['hex']), 16)), e)
         out.append(m)
     return out
@@ -625,6 +647,14 @@ def gen_plan(family, seed, msgs, tier='quick', index=None):
     while len(chosen) < nm and keys:
         chosen.append(rng.choice(by_key[keys[ki % len(keys)]]))
         ki += 1
+    # messages that fail when decoded alone take part as failing decodes; fields wider than 64 bits
+    # (201YYY with a large YYY) come several at a time, rejected or not
+    if REJECTED and rng.random() < 0.35:
+        chosen.extend(rng.sample(REJECTED, min(len(REJECTED), rng.randint(1, 2))))
+    if rng.random() < 0.15:
+        wide = [m for m in msgs if m.get('opkind') == 'wide'] + [m for m in REJECTED if m.get('opkind') == 'wide']
+        if wide:
+            chosen.extend(rng.sample(wide, min(len(wide), rng.randint(2, 4))))
     rng.shuffle(chosen)
     versions = bufrgen.table_versions()
     nops = rng.randint(5, 60 if tier == 'thorough' else 32)
@@ -673,9 +703,12 @@ def gen_plan(family, seed, msgs, tier='quick', index=None):
         mi = rng.randrange(len(chosen))
         if k in ('render', 'query', 'mdquery', 'script', 'wire', 'subset_encode') and not handles:
             k = 'decode'
+        if chosen[mi].get('rej') and k in ('encode', 'encode_bad', 'decode_bad', 'cli'):
+            k = rng.choice(['decode', 'decode', 'decode_info'])
         if k == 'decode':
             op = {'op': 'decode', 'c': c, 'm': mi, 'wire': rng.random() < 0.85, 'ive': rng.random() < p_ive}
-            handles.append((len(ops), mi, chosen[mi]['nsub'], op['wire']))
+            if not chosen[mi].get('rej'):
+                handles.append((len(ops), mi, chosen[mi]['nsub'], op['wire']))
         elif k == 'cli':
             op = {'op': 'cli', 'm': mi, 'argv': gen_cli_argv(rng, chosen[mi])}
         elif k == 'scan':
